@@ -1,1 +1,95 @@
-(* placeholder: to be written *)
+(** Trace checker for the safe-price correspondence run (C13): replays, on the composed model
+    (Model.Pair world + observation ring with the real capacity MAX_OBSERVATIONS), the pool
+    operations and safe-price queries the harness executed on the real pair contract, and compares
+    every observation.  Returns [] or [index; field; model value; implementation value]. *)
+From MX Require Import Base.Prelude Gen.Params Model.Pair Run.PairRun Model.SafePrice.
+
+Definition CAP : Z := MAX_OBSERVATIONS.
+
+(** injected history: [Seg count gap r1 r2 S] = [count] update calls, each [gap] rounds after the
+    previous call, all seeing reserves (r1, r2, S) *)
+Inductive seg := Seg (count gap r1 r2 s : Z).
+
+Fixpoint expand_seg (n : nat) (round gap r1 r2 s : Z) (k : Z -> list upd) : list upd :=
+  match n with
+  | O => k round
+  | S m => mkU (round + gap) r1 r2 s :: expand_seg m (round + gap) gap r1 r2 s k
+  end.
+
+Fixpoint expand (segs : list seg) (round : Z) : list upd :=
+  match segs with
+  | [] => []
+  | Seg c g r1 r2 s :: t => expand_seg (Z.to_nat c) round g r1 r2 s (expand t)
+  end.
+
+Inductive item :=
+| IOp (round : Z) (op : pop) (ok : bool) (r1 r2 s : Z) (cur len : Z) (last : list Z)
+| IQ (now : Z) (q : query) (ok : bool) (res : list Z)
+| IInject (segs : list seg) (legacy : Z).     (* first [legacy] retained observations lose lp_supply_accumulated *)
+
+Fixpoint first_diff (i pos : Z) (a b : list Z) : list Z :=
+  match a, b with
+  | [], [] => []
+  | x :: a', y :: b' => if x =? y then first_diff i (pos + 1) a' b' else [i; pos; x; y]
+  | x :: _, [] => [i; pos; x; -1]
+  | [], y :: _ => [i; pos; -1; y]
+  end.
+
+Definition last_fields (rg : ring) : list Z :=
+  match vget (rg_obs rg) (rg_cur rg) with Ok o => obs_fields o | Err _ => [] end.
+
+Definition cmp_state (i : Z) (w : spw) (r1 r2 s cur len : Z) (last : list Z) : list Z :=
+  let p := w_p (sw_w w) in
+  if negb (p_r1 p =? r1) then [i; 10; p_r1 p; r1]
+  else if negb (p_r2 p =? r2) then [i; 11; p_r2 p; r2]
+  else if negb (p_S p =? s) then [i; 12; p_S p; s]
+  else if negb (rg_cur (sw_ring w) =? cur) then [i; 20; rg_cur (sw_ring w); cur]
+  else if negb (vlen (rg_obs (sw_ring w)) =? len) then [i; 21; vlen (rg_obs (sw_ring w)); len]
+  else first_diff i 30 (last_fields (sw_ring w)) last.
+
+Fixpoint strip_lp (n : nat) (l : list obs) : list obs :=
+  match n, l with
+  | S m, o :: t => mkO (ob_a1 o) (ob_a2 o) (ob_w o) (ob_round o) 0 :: strip_lp m t
+  | _, _ => l
+  end.
+
+Definition inject (segs : list seg) (legacy : Z) : ring :=
+  let l := observations (expand segs 0) in
+  let k := vlen l in
+  let old := Z.max 0 (k - CAP) in        (* observations already overwritten *)
+  layout CAP (firstn (Z.to_nat old) l ++ strip_lp (Z.to_nat legacy) (skipn (Z.to_nat old) l)).
+
+Fixpoint check_trace (w : spw) (i : Z) (tr : list item) : list Z :=
+  match tr with
+  | [] => []
+  | IOp round op ok r1 r2 s cur len last :: t =>
+      match sp_step CAP w round op with
+      | Ok (w', _) =>
+          if negb ok then [i; 1; 1; 0]
+          else match cmp_state i w' r1 r2 s cur len last with
+               | [] => check_trace w' (i + 1) t
+               | d => d
+               end
+      | Err _ =>
+          if ok then [i; 1; 0; 1]
+          else match cmp_state i w r1 r2 s cur len last with
+               | [] => check_trace w (i + 1) t
+               | d => d
+               end
+      end
+  | IQ now q ok res :: t =>
+      match run_query CAP (sw_ring w) (env_of w now) q with
+      | Ok l =>
+          if negb ok then [i; 1; 1; 0]
+          else match first_diff i 40 l res with
+               | [] => check_trace w (i + 1) t
+               | d => d
+               end
+      | Err _ => if ok then [i; 1; 0; 1] else check_trace w (i + 1) t
+      end
+  | IInject segs legacy :: t =>
+      check_trace (mkSpw (sw_w w) (inject segs legacy)) (i + 1) t
+  end.
+
+Definition sp_init (fee sfee : Z) (adder : option Z) (l1 l2 : Z) : spw :=
+  mkSpw (init_world fee sfee adder l1 l2) ring0.
